@@ -192,9 +192,65 @@ def payload_vec_local(fg, s):
     return l
 
 
+def lift_to_builder(fg, bk, b, operand, depth=0):
+    """A send that sits in the future of an async helper spliced into its caller (rules/inline.py): the payload is a
+    captured variable of that future; follow it to the operand it was built from in the calling body."""
+    from an import single_def
+    if depth > 4 or not b.j.get("reowned_from") or operand["k"] == "const":
+        return bk, b, operand
+    cur = operand
+    fld = None
+    for _ in range(12):
+        pl = cur["p"]
+        if pl["l"] == 1:
+            for e in pl["pr"]:
+                if isinstance(e, dict) and "f" in e:
+                    fld = e["f"]
+                    break
+            break
+        d = single_def(b, pl["l"])
+        if d is None:
+            break
+        _bi, si, r = d
+        if si == "t":
+            cn = callee_names(r)
+            if cn and cn[-1].rsplit("::", 1)[-1] in ("deref", "as_ref", "as_slice", "borrow") and r["args"] and r["args"][0]["k"] != "const":
+                cur = r["args"][0]
+                continue
+            break
+        if r["k"] == "use" and r["o"]["k"] != "const":
+            cur = r["o"]
+            continue
+        if r["k"] == "ref":
+            cur = {"k": "copy", "p": r["p"]}
+            continue
+        break
+    if fld is None:
+        return bk, b, operand
+    for hk, hb in fg.bodies.items():
+        if hb.owner != b.owner or hb is b:
+            continue
+        for blk in hb.blocks:
+            if blk.get("thr"):
+                continue
+            for st in blk["s"]:
+                if st["k"] == "assign" and st["r"]["k"] == "agg" and st["r"].get("def") == b.id and fld < len(st["r"]["ops"]):
+                    return lift_to_builder(fg, hk, hb, st["r"]["ops"][fld], depth + 1)
+    return bk, b, operand
+
+
 def check_payload_slots(fg, s, res, lab):
     b = s.body
     fn = b.owner.rsplit("::", 1)[-1]
+    lbk, lb, lop = lift_to_builder(fg, s.bk, s.body, s.term["args"][3])
+    if lb is not b:
+        class _S:
+            pass
+        s2 = _S()
+        s2.body, s2.bk, s2.sp = lb, lbk, s.sp
+        s2.term = {"args": [None, None, None, lop]}
+        s = s2
+        b = lb
     v = payload_vec_local(fg, s)
     inst = "%s|%s|slots" % (fn, lab)
     if v is None:
@@ -289,7 +345,8 @@ def check_result_vector(fg, res, contains_edges, hbk, hb):
                         for nm in e.info.get("names", []):
                             if nm.startswith("polytune::mpc::protocol::") and not nm.startswith(hb.owner):
                                 ext.add(nm)
-                bad_ext = {x for x in ext if not x.startswith(out_owner)}
+                # (the future of an async helper that was spliced into output() belongs to output())
+                bad_ext = {x for x in ext if not x.startswith(out_owner) and not any(fg.bodies[k_].owner == out_owner for k_ in fg.by_id.get(x, []))}
                 if bad_ext:
                     res.bad("R5.result", "_mpc|returns", "_mpc's Ok value depends on %s, not only on output()" % sorted(bad_ext), where(hb, bi))
                 else:
